@@ -21,6 +21,8 @@ def obligations(ctx):
         n = Leaf('i64', 'n')
         obs.append(FnCall('C18', 'Number::from(i64)/' + ('dbg' if oc else 'rel'), 'number', 'resolve:<number::Number as From<i64>>::from', [n],
                           lambda vals: [(True, sem.OKN_int(vals[0]))], lambda cz, n=n: ['FROMI', n.render(cz)], oc=oc))
+    from .c19 import number_literal_obligations
+    obs += number_literal_obligations('C18')      # the other conversion into Number: literal text -> Integer / Float
     return obs
 
 
